@@ -190,6 +190,19 @@ def _():
 def _():
     return _run("vtt", b"WEBVTT\n\n" + b"9" * 400 + b":00:01.000 --> " + b"9" * 400 + b":00:02.000\nx\n", 0, "OverflowError", "add_isd|to_time_format")
 
+@witness("C18", "writer-time-int-digits")
+def _():
+    # an SRT hour field of 4300 digits is read (int() accepts it); the IMSC writer cannot print the frame count (str(int) of 4305 digits)
+    return _run("srt", b"1\n" + b"9" * 4300 + b":00:00,000 --> " + b"9" * 4300 + b":00:01,000\nx\n", 0, "ValueError", "to_time_format")
+
+@witness("C18", "srt-hour-field-width")
+def _():
+    # repository commit 4d63802: hour fields of two or more digits; beyond int()'s digit limit the reader raises ValueError (documented)
+    return (_clean("srt", b"1\n1000:00:00,000 --> 1000:00:01,000\nx\n")
+            or _clean("srt", b"1\nx 0012345:00:00,000 --> 12346:00:01,000 y\nx\n")
+            or _clean("srt", b"1\n" + b"1" * 4301 + b":00:00,000 --> " + b"1" * 4301 + b":00:01,000\nx\n", 0, "format:ValueError")
+            or _clean("srt", b"1\n00:00:00,000 --> " + b"0" * 4301 + b":00:01,000\nx\n", 0, "format:ValueError"))
+
 @witness("C18", "imsc-writer-aspect-ratio-overflow")
 def _():
     # fixed by repository commit e3fb15a (integers are written as integers)
